@@ -71,6 +71,21 @@ def structured_scalars():
             for c in limbs[:4]:
                 for d_ in (0, 1, 0x0fffffffffffffff, 0x0800000000000000):
                     out.add((a | (b << 64) | (c << 128) | (d_ << 192)) % L_)
+    # carry chains across the 64-bit word boundaries of the recoders: a word of all 7s / all fs / 0 above a word that
+    # does (or just does not) produce a carry
+    words = [0x7777777777777777, 0x7777777777777778, 0x7777777777777776, 0x8888888888888888, 2**64 - 1, 0, 0x0777777777777777, 0x8777777777777777]
+    lows = [0x7777777777777778, 0x7777777777777777, 0x8000000000000000, 2**64 - 1, 0x9e3779b97f4a7c15, 0]
+    for w in words:
+        for lo in lows:
+            for pos in (1, 2, 3):
+                for top in (0, 0x0123456789abcdef, 0x0fffffffffffffff):
+                    v = lo << (64 * (pos - 1)) | w << (64 * pos)
+                    if pos < 3:
+                        v |= top << 192
+                    if pos == 1:
+                        v |= 0x0123456789abcdef << 128
+                    out.add(v % (2**252))
+                    out.add((v | (v >> 64 & (2**64 - 1))) % (2**252))
     for e in (0, 1, 4, 60, 63, 64, 65, 124, 127, 128, 129, 191, 192, 250, 251, 252):
         out.add((2**e) % L_)
         out.add((2**e - 1) % L_)
@@ -224,12 +239,17 @@ def battery_scalarmult(seed, which=("P.ScalarMult", "P.ScalarBaseMult", "P.VarTi
                     sn.append("k%d" % j)
                     pn.append("q%d" % j)
                     want = ref.ed_add(want, ref.ed_mul(k, q))
-                if n >= 2 and t % 3 == 0:
-                    pn[1] = pn[0]   # the same point object twice
+                if n >= 2 and t % 3 != 1:
+                    # the same point object twice (t % 3 == 0), the same scalar object twice (t % 3 == 2), both (t % 6 == 0)
+                    dp, dk = t % 3 == 0, t % 3 == 2 or t % 6 == 0
+                    if dp:
+                        pn[1] = pn[0]
+                    if dk:
+                        sn[n - 1] = sn[0]
                     want = (0, 1)
                     for j in range(n):
-                        kk = ks[(t * 3 + j * 5) % len(ks)]
-                        qq = pts[(t + (0 if j == 1 else j) * 2) % len(pts)]
+                        kk = ks[(t * 3 + (0 if dk and j == n - 1 else j) * 5) % len(ks)]
+                        qq = pts[(t + (0 if dp and j == 1 else j) * 2) % len(pts)]
                         want = ref.ed_add(want, ref.ed_mul(kk, qq))
                 args = ["v", "|".join(sn), "|".join(pn)]
                 alias_to = pn[0] if n else None
@@ -250,6 +270,8 @@ def battery_scalarmult(seed, which=("P.ScalarMult", "P.ScalarBaseMult", "P.VarTi
         got = affine_of(r["slots"][args[0]])
         if got != want:
             return dict(what="%s (receiver %s): result %s, expected %s" % (op, recv, got, want), op=op, args=args, init=init)
+        if r.get("slices_modified"):
+            return dict(what="%s modified a slice argument: %s (scalars %s, points %s)" % (op, r["slices_modified"], args[1], args[2]), op=op, args=args, init=init)
         for nm, v in init.items():
             if nm != args[0] and r["slots"].get(nm) != v:
                 return dict(what="%s modified input %s" % (op, nm), op=op, args=args, init=init)
